@@ -218,3 +218,222 @@ Theorem C20_spurious_at_most_once :
 Proof. exact spurious_at_most_once. Qed.
 Print Assumptions C20_spurious_at_most_once.
 
+
+Require Import LV.Base LV.VV LV.VVFacts LV.Path LV.PathSpec LV.PathTerm LV.PathDistinct LV.PathApi LV.Prog LV.Objects LV.Exec LV.Atomic LV.Ops LV.Check LV.SyncFacts LV.ExecFacts LV.SyncMono LV.NotifyFacts LV.CountFacts LV.ExclFacts LV.WakerFacts.
+
+(* The AtomicWaker protocol over all interleavings (WakerFacts.v) *)
+(* EXACT, for every micro-operation: the waker slot changes only by a successful register (to the registering task's own waker) and by a take (to empty) *)
+Theorem C20_slot_step :
+  forall (e : exec) (me : nat) (m : micro) (w : nat),
+       slot (res_exec (exec_micro e me m)) w = slot_after e me m w.
+Proof. exact slot_step. Qed.
+Print Assumptions C20_slot_step.
+
+(* the slot always holds the waker of the most recent successful registration since the last take: wake() notifies that task or nobody *)
+Theorem C20_wake_wakes_latest :
+  forall (w : nat) (e : exec) (evs : list wev) (e' : exec),
+       wsteps w e evs e' ->
+       w < length (e_h e) -> slot e' w = replay evs (slot e w) /\ length (e_h e') = length (e_h e).
+Proof. exact wake_wakes_latest. Qed.
+Print Assumptions C20_wake_wakes_latest.
+
+(* a successful register stores the task's waker under the lock and drops the one it replaces *)
+Theorem C20_register_success_effect :
+  forall (e : exec) (me a : nat) (v : N) (w n k : nat) (e1 : exec),
+       post_acquire e me w = (e1, true) ->
+       exists e2 : exec,
+         exec_micro e me (MBoRegister a v w n k) = MOk e2 /\
+         e2 =
+         push_cont (upd_hobj e1 w (fun h : hobj => ho_set_waker h (Some (n, k)))) me
+           (reg_cont (slot e w) a v w n k) /\
+         (w < length (e_h e) -> slot e2 w = Some (n, k)) /\
+         (forall w' : nat, w' <> w -> slot e2 w' = slot e w') /\
+         (exists s s2 : mutex_state,
+            get_mutex e w = Some s /\
+            mx_lock s = None /\ get_mutex e2 w = Some s2 /\ mx_lock s2 = Some me) /\
+         (me < length (e_threads e) ->
+          cont_at e2 me = reg_cont (slot e w) a v w n k ++ cont_at e me) /\
+         (forall b : nat, b <> me -> cont_at e2 b = cont_at e b).
+Proof. exact register_success_effect. Qed.
+Print Assumptions C20_register_success_effect.
+
+(* a contended register makes the task notify ITSELF, so its next wait does not block *)
+Theorem C20_register_contended_effect :
+  forall (e : exec) (me a : nat) (v : N) (w n k : nat),
+       snd (post_acquire e me w) = false ->
+       exec_micro e me (MBoRegister a v w n k) = MOk (push_cont e me (contended_cont a v w n k)) /\
+       e_h (push_cont e me (contended_cont a v w n k)) = e_h e /\
+       e_objects (push_cont e me (contended_cont a v w n k)) = e_objects e /\
+       (me < length (e_threads e) ->
+        cont_at (push_cont e me (contended_cont a v w n k)) me =
+        MBranch n AOpaque BNever
+        :: MNotifyPost n :: drop_waker k ++ MYield :: again a v w n k ++ cont_at e me) /\
+       (forall b : nat,
+        b <> me -> cont_at (push_cont e me (contended_cont a v w n k)) b = cont_at e b).
+Proof. exact register_contended_effect. Qed.
+Print Assumptions C20_register_contended_effect.
+
+(* wake(): take the stored waker, release the lock, then notify its task and drop it *)
+Theorem C20_wake_take_effect :
+  forall (e : exec) (me w : nat) (e' : exec),
+       exec_micro e me (MWakeTake w true) = MOk e' ->
+       (exists s s' : mutex_state,
+          get_mutex e w = Some s /\
+          mx_lock s = None /\ get_mutex e' w = Some s' /\ mx_lock s' = None) /\
+       slot e' w = None /\
+       (forall w' : nat, w' <> w -> slot e' w' = slot e w') /\
+       (forall n : nat, get_notify e' n = get_notify e n) /\
+       (forall b : nat, b <> me -> cont_at e' b = cont_at e b) /\
+       match slot e w with
+       | Some (n, k) =>
+           me < length (e_threads e) ->
+           cont_at e' me =
+           MBranch n AOpaque BNever :: MNotifyPost n :: drop_waker k ++ MLog RUnit :: cont_at e me
+       | None => cont_at e' me = cont_at e me
+       end.
+Proof. exact wake_take_effect. Qed.
+Print Assumptions C20_wake_take_effect.
+
+(* GLOBAL: a registered waker that is later taken by a wake() -- any steps of any threads in between -- is notified: the wake is in the waking thread's continuation or the task's flag is set, the task's wait then does not block and its consuming step succeeds *)
+Theorem C20_registered_then_woken_not_lost :
+  forall (w n k : nat) (e0 e : exec) (a : nat) (t : thread) (rest : list micro) (e1 e2 : exec),
+       track_ok e0 ->
+       w < length (e_h e0) ->
+       slot e0 w = Some (n, k) ->
+       rsteps (quiet w) e0 e ->
+       e_active e = Some a ->
+       nth_error (e_threads e) a = Some t ->
+       t_cont t = MWakeTake w true :: rest ->
+       exec_micro (popc e a rest) a (MWakeTake w true) = MOk e1 ->
+       rsteps (no_wait2 n) e1 e2 ->
+       slot e1 w = None /\
+       cont_at e1 a =
+       MBranch n AOpaque BNever :: MNotifyPost n :: drop_waker k ++ MLog RUnit :: rest /\
+       (wake_pending e2 a n \/ delivered e2 n) /\
+       (delivered e2 n ->
+        (forall (b : nat) (e3 : exec),
+         b < length (e_threads e2) ->
+         exec_micro e2 b (MNotifyWait1 n) = MOk e3 ->
+         cont_at e3 b = MBranch n AOpaque BNever :: MNotifyWait2 n :: cont_at e2 b \/
+         cont_at e3 b = MYield :: cont_at e2 b) /\
+        (forall (e4 : exec) (b : nat),
+         steps_without_wait2 n e2 e4 -> exists e5 : exec, exec_micro e4 b (MNotifyWait2 n) = MOk e5)) /\
+       (forall (ep e3 e4 : exec) (b : nat) (e5 e6 : exec),
+        track_ok ep ->
+        exec_micro ep a (MNotifyPost n) = MOk e3 ->
+        steps_without_wait2 n e3 e4 ->
+        exec_micro e4 b (MNotifyWait1 n) = MOk e5 ->
+        steps_without_wait2 n e5 e6 ->
+        exists e7 : exec,
+          exec_micro e6 b (MNotifyWait2 n) = MOk e7 /\
+          (forall (e' : exec) (pn : panic), exec_micro e6 b (MNotifyWait2 n) <> MFail e' pn) /\
+          (b < length (e_threads e6) -> vle (caus_of ep a) (caus_of e7 b))).
+Proof. exact registered_then_woken_not_lost. Qed.
+Print Assumptions C20_registered_then_woken_not_lost.
+
+(* a wake that arrives while a registration holds the lock is blocked until the release and then takes the freshly stored waker (exclusion from ExclFacts) *)
+Theorem C20_wake_during_registration_b :
+  forall (e : exec) (b : nat) (t : thread) (a0 : nat) (v : N) (w n k : nat)
+         (rest : list micro) (e1 e2 : exec),
+       excl_inv e ->
+       w < length (e_h e) ->
+       e_active e = Some b ->
+       nth_error (e_threads e) b = Some t ->
+       t_cont t = MBoRegister a0 v w n k :: rest ->
+       snd (post_acquire (popc e b rest) b w) = true ->
+       exec_micro (popc e b rest) b (MBoRegister a0 v w n k) = MOk e1 ->
+       rsteps (not_release b w) e1 e2 ->
+       slot e2 w = Some (n, k) /\
+       in_cs e2 b w /\
+       excl_inv e2 /\
+       (forall (me : nat) (wake : bool),
+        exec_micro e2 me (MWakeTake w wake) = MFail e2 PanicExpectLock) /\
+       (forall (me a' : nat) (v' : N) (n' k' : nat),
+        exec_micro e2 me (MBoRegister a' v' w n' k') =
+        MOk (push_cont e2 me (contended_cont a' v' w n' k'))) /\
+       (forall (s2 : mutex_state) (a : nat),
+        get_mutex e2 w = Some s2 ->
+        mx_lock s2 = Some b /\
+        exec_micro e2 a (MBranch w AOpaque BMutexLocked) =
+        fst
+          (schedule
+             (upd_thread e2 a
+                (fun t0 : thread =>
+                 set_blocked (th_set_op t0 (Some {| op_obj := w; op_act := AOpaque |})))))) /\
+       (forall (t2 : thread) (rest2 : list micro) (e3 : exec),
+        e_active e2 = Some b ->
+        nth_error (e_threads e2) b = Some t2 ->
+        t_cont t2 = MWakerRelease w :: rest2 ->
+        exec_micro (popc e2 b rest2) b (MWakerRelease w) = MOk e3 ->
+        slot e3 w = Some (n, k) /\
+        (forall s2 : mutex_state,
+         get_mutex e2 w = Some s2 ->
+         exists s3 : mutex_state, get_mutex e3 w = Some s3 /\ mx_lock s3 = None) /\
+        (forall (s2 : mutex_state) (a : nat) (ta : thread),
+         get_mutex e2 w = Some s2 ->
+         a <> b ->
+         nth_error (e_threads e2) a = Some ta ->
+         pending_on w ta = true -> nth_error (e_threads e3) a = Some (set_runnable ta))).
+Proof. exact wake_during_registration_b. Qed.
+Print Assumptions C20_wake_during_registration_b.
+
+(* a registration that follows a take succeeds on the free lock and acquires the waking thread's clock through it: it observes the wake *)
+Theorem C20_wake_during_registration_a :
+  forall (e : exec) (a : nat) (ta : thread) (w : nat) (resta : list micro) 
+         (e1 e2 : exec) (b : nat) (tb : thread) (a0 : nat) (v : N) (n k : nat) 
+         (restb : list micro),
+       track_ok e ->
+       w < length (e_h e) ->
+       e_active e = Some a ->
+       nth_error (e_threads e) a = Some ta ->
+       t_cont ta = MWakeTake w true :: resta ->
+       exec_micro (popc e a resta) a (MWakeTake w true) = MOk e1 ->
+       steps e1 e2 ->
+       nth_error (e_threads e2) b = Some tb ->
+       t_cont tb = MBoRegister a0 v w n k :: restb ->
+       (forall s2 : mutex_state, get_mutex e2 w = Some s2 -> mx_lock s2 = None) ->
+       slot e1 w = None /\
+       (exists s1 : mutex_state, get_mutex e1 w = Some s1 /\ mx_lock s1 = None) /\
+       (exists e3 : exec,
+          exec_micro (popc e2 b restb) b (MBoRegister a0 v w n k) = MOk e3 /\
+          slot e3 w = Some (n, k) /\
+          cont_at e3 b = reg_cont (slot e2 w) a0 v w n k ++ restb /\
+          vle (caus_of e a) (caus_of e3 b)).
+Proof. exact wake_during_registration_a. Qed.
+Print Assumptions C20_wake_during_registration_a.
+
+(* after a Pending poll the task's continuation is exactly [Notify::wait; poll]: it re-polls only after a wake or the single spurious return *)
+Theorem C20_repoll_only_after_wake :
+  forall (e : exec) (b a : nat) (v : N) (w n k : nat) (e1 : exec) (x : N),
+       load_post e b a Acquire = inl (e1, x) ->
+       (x =? v)%N = false ->
+       b < length (e_threads e) ->
+       exec_micro e b (MBoLoad a v w n k false) =
+       MOk (push_cont e1 b [MNotifyWait1 n; MBoPoll a v w n k]) /\
+       cont_at (push_cont e1 b [MNotifyWait1 n; MBoPoll a v w n k]) b =
+       MNotifyWait1 n :: MBoPoll a v w n k :: cont_at e b /\
+       exec_micro e b (MBoLoad a v w n k true) = MOk (push_cont e1 b (register_seq a v w n k)) /\
+       (forall (e2 : exec) (s : notify_state) (e3 : exec),
+        get_notify e2 n = Some s ->
+        b < length (e_threads e2) ->
+        exec_micro e2 b (MNotifyWait1 n) = MOk e3 ->
+        nt_notified s = true /\
+        cont_at e3 b = MBranch n AOpaque BNever :: MNotifyWait2 n :: cont_at e2 b \/
+        nt_spurious s = true /\
+        nt_did_spur s = false /\
+        cont_at e3 b = MYield :: cont_at e2 b /\
+        (exists s3 : notify_state,
+           get_notify e3 n = Some s3 /\ nt_did_spur s3 = true /\ nt_notified s3 = nt_notified s) \/
+        nt_notified s = false /\
+        cont_at e3 b = MBranch n AOpaque BAlways :: MNotifyWait2 n :: cont_at e2 b).
+Proof. exact repoll_only_after_wake. Qed.
+Print Assumptions C20_repoll_only_after_wake.
+
+(* computed: all 205 schedules of the canonical one-task / one-waker program for three store orderings: never a deadlock *)
+Theorem C20_wake_never_lost_exhaustive :
+  kinds (p_wake SeqCst) = (205, [192; 13; 0; 0; 0]) /\
+       kinds (p_wake Release) = (205, [192; 13; 0; 0; 0]) /\
+       kinds (p_wake Relaxed) = (205, [192; 13; 0; 0; 0]).
+Proof. exact wake_never_lost_exhaustive. Qed.
+Print Assumptions C20_wake_never_lost_exhaustive.
+
